@@ -17,5 +17,5 @@ Actions ==
 Next == \E e \in Actions : Do(e)
 Spec == Init /\ [][Next]_vars
 (* the wake counter only grows: keep it out of the fingerprint *)
-View == <<ocount, inPoll, rec, fw, touched>>
+View == <<ocount, inPoll, rec, fw, touched, seen>>
 =============================================================================
